@@ -214,6 +214,19 @@ func valuesEqualNFC(a, b cty.Value) bool {
 	return a.RawEquals(b)
 }
 
+// c11Interleave generates unrelated source through the same generators between
+// producing a source text and reading it back: generated bytes belong to the
+// caller and later calls must leave them alone.
+func c11Interleave() {
+	other := cty.ObjectVal(map[string]cty.Value{"other": cty.ListVal([]cty.Value{cty.StringVal("unrelated value"), cty.StringVal("of about the same size")}), "n": cty.NumberIntVal(1234567)})
+	_ = hclwrite.TokensForValue(other).Bytes()
+	f := hclwrite.NewEmptyFile()
+	f.Body().SetAttributeValue("other", other)
+	f.Body().AppendNewBlock("unrelated", []string{"label"}).Body().SetAttributeValue("x", cty.True)
+	_ = f.Bytes()
+	_ = hclwrite.TokensForTraversal(hcl.Traversal{hcl.TraverseRoot{Name: "unrelated"}, hcl.TraverseAttr{Name: "traversal"}, hcl.TraverseIndex{Key: cty.StringVal("key")}}).Bytes()
+}
+
 func c11Case(c *core.Case) {
 	r := c.Rng
 	switch r.Intn(5) {
@@ -233,6 +246,7 @@ func c11Case(c *core.Case) {
 		f := hclwrite.NewEmptyFile()
 		f.Body().SetAttributeValue("a", v)
 		src = f.Bytes()
+		c11Interleave()
 		c.SetInput(string(src))
 		pf, pd := hclsyntax.ParseConfig(src, "gen.hcl", hcl.InitialPos)
 		c.Evals(1)
@@ -251,6 +265,7 @@ func c11Case(c *core.Case) {
 	} else {
 		toks := hclwrite.TokensForValue(v)
 		src = toks.Bytes()
+		c11Interleave()
 		c.SetInput(string(src))
 		e, pd := hclsyntax.ParseExpression(src, "gen.hcl", hcl.InitialPos)
 		c.Evals(1)
@@ -354,6 +369,7 @@ func c11Traversal(c *core.Case) {
 		f := hclwrite.NewEmptyFile()
 		f.Body().SetAttributeTraversal("a", tr)
 		src = f.Bytes()
+		c11Interleave()
 		c.SetInput(string(src))
 		pf, pd := hclsyntax.ParseConfig(src, "gen.hcl", hcl.InitialPos)
 		if pd.HasErrors() {
@@ -369,6 +385,7 @@ func c11Traversal(c *core.Case) {
 		c.Count("route:SetAttributeTraversal")
 	} else {
 		src = hclwrite.TokensForTraversal(tr).Bytes()
+		c11Interleave()
 		c.SetInput(string(src))
 		var pd hcl.Diagnostics
 		e, pd = hclsyntax.ParseExpression(src, "gen.hcl", hcl.InitialPos)
@@ -447,6 +464,7 @@ func c11Blocks(c *core.Case) {
 		wants = append(wants, want{typ, labels})
 	}
 	src := f.Bytes()
+	c11Interleave()
 	c.SetInput(string(src))
 	pf, pd := hclsyntax.ParseConfig(src, "gen.hcl", hcl.InitialPos)
 	c.Evals(1)
